@@ -311,6 +311,6 @@ _quick("C09", "C09_resync", "follower side of the resynchronisation handshake: t
 
 _quick("C12", "C12_candidate", "the real ArbiterVoter.DoProposal over three members (own acceptor through DoSelfProposal, remote answers stubbed: accepted or lost); while it waits for B's or C's answer a foreign REPL_PROPOSAL numbered 0..2 above the candidate's is delivered to its own acceptor through the real remote handler: the accepted number never decreases (symbolic executor only: Request needs a connection natively)", ["-witness", "0"], reach=["end", "proposed", "foreign-accepted"], native=False)
 
-_quick("C12", "C12_candidate_commit", "the candidate's own commit round fails (remote answers lost) after its own acceptor accepted a foreign candidate's proposal and commit through the real remote handlers (or nothing foreign happened): the pending foreign commit survives and a third candidacy's proposal + commit are refused (symbolic executor only)", ["-witness", "0"], reach=["end", "foreign-committed"], native=False)
+_quick("C12", "C12_candidate_commit", "the candidate's own commit round fails (remote answers lost) after its own acceptor accepted a foreign candidate's proposal and commit — naming the foreign candidate or this member as leader — through the real remote handlers (or nothing foreign happened): the pending foreign commit survives and a third candidacy's proposal + commit are refused (symbolic executor only)", ["-witness", "0"], reach=["end", "foreign-committed"], native=False)
 
 _quick("C11", "C11_shared", "holder A (Count 5) with default / persist-immediately / never-persist timing, then B asks for the key with the require-ack flag, one follower configured: B is not reported SUCCED before its record is written and acknowledged, and is registered for acknowledgement", ["-witness", "3"])
